@@ -316,4 +316,348 @@ theorem Extends.good {E : Env} {P i : Nat} {extra : TraitCore → Prop} {w w' : 
         exact g.sepC a x ha' ((hmut_old x (reach_lt g a x ha')).mp hm) t hc hk
     · exact absurd hk (hx t hc).1
 
+/-! ### The operations of the world model -/
+
+/-- A focused statement that satisfies `OGrow` extends the world. -/
+theorem onAttr_extends {E : Env} {P : Nat} {w : World} (g : Good E P w) (i : Nat) (n : Name)
+    (f : TraitCore → OSt → Res × OSt)
+    (hf : ∀ t s, CtxWF P s.ctx → GoodCore E P s.ctx t → OGrow P s (f t s).2) :
+    Extends P i (fun _ => False) w (w.onAttr i n f).2 := by
+  have hrefl : Extends P i (fun _ => False) w w :=
+    ⟨rfl, fun _ _ => rfl, CGrow.refl _ g.wf, fun o' ho' => ⟨o', ho', rfl, fun _ _ h => Or.inl h,
+      fun p hp => Or.inl (Or.inr ⟨o', List.mem_of_getElem? ho', p, hp, rfl⟩)⟩⟩
+  unfold World.onAttr
+  cases hi : w.insts[i]? with
+  | none => exact hrefl
+  | some o =>
+    simp only []
+    cases ht : w.traitOf o n with
+    | none => exact hrefl
+    | some td =>
+      simp only []
+      have hcore := w.traitOf_cores i o n td hi ht
+      have hs := hf td.core (w.focus o n) g.wf (g.cores td.core hcore)
+      cases hr : f td.core (w.focus o n) with
+      | mk r s =>
+        rw [hr] at hs
+        simp only []
+        refine ⟨rfl, fun j hj => setInst_get_other w i j _ _ hj, hs.grow, ?_⟩
+        intro o' ho'
+        rw [setInst_get_self w i o _ _ hi] at ho'
+        injection ho' with ho'
+        subst ho'
+        refine ⟨o, hi, rfl, ?_, ?_⟩
+        · intro m u hu
+          unfold Inst.absorb at hu
+          simp only [] at hu
+          by_cases hmn : m = n
+          · subst hmn
+            cases hsl : s.slot with
+            | none =>
+              simp only [hsl, assocGet_assocErase, if_true] at hu
+              cases hu
+            | some v =>
+              simp only [hsl, assocGet_assocSet_self] at hu
+              injection hu with hu
+              subst hu
+              have hslot := hs.slot
+              simp only [hsl] at hslot
+              rcases hslot with e | ⟨v', e, fv⟩
+              · left
+                exact e.symm
+              · right
+                injection e with e
+                subst e
+                exact fv
+          · left
+            cases hsl : s.slot with
+            | none => simpa [hsl, assocGet_assocErase, hmn] using hu
+            | some v => simpa [hsl, assocGet_assocSet_ne _ _ _ _ hmn] using hu
+        · intro p hp
+          left
+          unfold Inst.absorb at hp
+          simp only [] at hp
+          cases hit : s.it with
+          | none =>
+            simp only [hit] at hp
+            exact Or.inr ⟨o, List.mem_of_getElem? hi, p, hp, rfl⟩
+          | some l =>
+            simp only [hit] at hp
+            rcases mem_assocSet _ _ _ _ hp with h | h
+            · exact Or.inr ⟨o, List.mem_of_getElem? hi, p, h, rfl⟩
+            · subst h
+              simp only []
+              cases hcur : assocGet o.itraits n with
+              | none => simpa [hcur] using hcore
+              | some t0 =>
+                obtain ⟨q, hq, hq2⟩ := assocGet_mem _ _ _ hcur
+                simp only [Option.map_some, Option.getD_some]
+                exact Or.inr ⟨o, List.mem_of_getElem? hi, q, hq, by rw [hq2]⟩
+
+/-- Appending an atom to a container reachable from an instance keeps the world good. -/
+theorem mutate_good {E : Env} {P : Nat} {w : World} (g : Good E P w) (i : Nat) (cid x : Id)
+    (hr : w.ReachIdx i cid) (hx : x < P) : Good E P { w with ctx := (w.ctx.mutate cid x).2 } := by
+  unfold Ctx.mutate
+  cases hg : heapGet w.ctx.heap cid with
+  | none => exact g
+  | some ys =>
+    simp only []
+    split
+    · exact g
+    · have hmut : w.Mut cid := by unfold World.Mut; rw [hg]; rfl
+      have hk : (heapGet w.ctx.heap cid).isSome = true := by rw [hg]; rfl
+      have hne : ∀ y, y ≠ cid → heapGet (heapSet w.ctx.heap cid (ys ++ [x])) y = heapGet w.ctx.heap y :=
+        fun y hy => heapGet_heapSet_ne _ _ _ _ hy
+      have hself : heapGet (heapSet w.ctx.heap cid (ys ++ [x])) cid = some (ys ++ [x]) :=
+        heapGet_heapSet_self _ _ _ hk
+      have hsome : ∀ y, (heapGet (heapSet w.ctx.heap cid (ys ++ [x])) y).isSome = (heapGet w.ctx.heap y).isSome :=
+        fun y => heapSet_isSome _ _ _ _ hk
+      -- reachability grows by the atom only
+      have hreach : ∀ a y, World.ReachIdx { w with ctx := { w.ctx with heap := heapSet w.ctx.heap cid (ys ++ [x]) } } a y →
+          w.ReachIdx a y ∨ y = x := by
+        rintro a y ⟨o, ho, n, v, hv, hy⟩
+        rcases hy with rfl | hy
+        · exact Or.inl ⟨o, ho, n, y, hv, Or.inl rfl⟩
+        · unfold World.kids at hy
+          simp only [] at hy
+          by_cases hvc : v = cid
+          · subst hvc
+            rw [hself] at hy
+            simp at hy
+            rcases hy with hy | hy
+            · exact Or.inl ⟨o, ho, n, v, hv, Or.inr (by unfold World.kids; rw [hg]; exact hy)⟩
+            · exact Or.inr hy
+          · rw [hne v hvc] at hy
+            exact Or.inl ⟨o, ho, n, v, hv, Or.inr hy⟩
+      have hxnm : ¬ w.Mut x := by
+        intro hm
+        unfold World.Mut at hm
+        cases hgx : heapGet w.ctx.heap x with
+        | none => simp [hgx] at hm
+        | some zs => exact absurd hx (Nat.not_lt.mpr (g.wf.heap x zs hgx).1)
+      have hmut' : ∀ y, World.Mut { w with ctx := { w.ctx with heap := heapSet w.ctx.heap cid (ys ++ [x]) } } y ↔ w.Mut y := by
+        intro y
+        unfold World.Mut
+        simp only []
+        rw [hsome y]
+      refine ⟨⟨g.wf.base, ?_⟩, g.three, ?_, g.templ, g.vals, ?_, ?_, ?_⟩
+      · intro y zs hy
+        simp only [] at hy
+        by_cases hyc : y = cid
+        · subst hyc
+          rw [hself] at hy
+          injection hy with hy
+          subst hy
+          obtain ⟨a1, a2, a3⟩ := g.wf.heap y ys hg
+          refine ⟨a1, a2, fun z hz => ?_⟩
+          rcases List.mem_append.mp hz with h | h
+          · exact a3 z h
+          · simp at h; subst h; exact Nat.lt_of_lt_of_le hx g.wf.base
+        · rw [hne y hyc] at hy
+          exact g.wf.heap y zs hy
+      · intro t ht
+        have gc := g.cores t ht
+        refine ⟨gc.const, fun hkind => ?_, gc.factory, gc.validate⟩
+        have : t.dv.getD noneId ≠ cid := fun e => g.sepC i cid hr hmut t ht hkind e.symm
+        simp only []
+        rw [hne _ this]
+        exact gc.copy hkind
+      · intro j o ho
+        have := g.oids j o ho
+        refine ⟨this.1, ?_⟩
+        have : o.oid ≠ cid := fun e => by rw [e, hg] at this; cases this.2
+        simp only []
+        rw [hne _ this]
+        exact (g.oids j o ho).2
+      · intro a b y hab ha hm hb
+        have hm' := (hmut' y).mp hm
+        rcases hreach a y ha with h1 | h1
+        · rcases hreach b y hb with h2 | h2
+          · exact g.sepI a b y hab h1 hm' h2
+          · exact hxnm (h2 ▸ hm')
+        · exact hxnm (h1 ▸ hm')
+      · intro a y ha hm t ht hkind
+        have hm' := (hmut' y).mp hm
+        rcases hreach a y ha with h1 | h1
+        · exact g.sepC a y h1 hm' t ht hkind
+        · exact absurd (h1 ▸ hm') hxnm
+
+/-- The world after `cls()`. -/
+def World.withNew (w : World) (k : Nat) : World :=
+  { w with insts := w.insts ++ [{ oid := w.ctx.alloc, cls := k }],
+           ctx := { w.ctx with alloc := w.ctx.alloc + 1 } }
+
+/-- A new instance keeps the world good. -/
+theorem new_good {E : Env} {P : Nat} {w : World} (g : Good E P w) (k : Nat) : Good E P (w.withNew k) := by
+  have hget : ∀ (j : Nat) (o : Inst), (w.withNew k).insts[j]? = some o →
+      w.insts[j]? = some o ∨ o = { oid := w.ctx.alloc, cls := k } := by
+    intro j o ho
+    unfold World.withNew at ho
+    simp only [] at ho
+    rcases Nat.lt_or_ge j w.insts.length with h | h
+    · rw [List.getElem?_append_left h] at ho; exact Or.inl ho
+    · rw [List.getElem?_append_right h] at ho
+      right
+      cases hj : j - w.insts.length with
+      | zero => rw [hj] at ho; simp at ho; exact ho.symm
+      | succ m => rw [hj] at ho; simp at ho
+  have hreach : ∀ a y, (w.withNew k).ReachIdx a y → w.ReachIdx a y := by
+    rintro a y ⟨o, ho, n, v, hv, hy⟩
+    rcases hget a o ho with h | h
+    · exact ⟨o, h, n, v, hv, hy⟩
+    · subst h
+      simp [assocGet] at hv
+  have hcores : ∀ t, (w.withNew k).Cores t → w.Cores t := by
+    rintro t (⟨c, hc, p, hp, rfl⟩ | ⟨o, ho, p, hp, rfl⟩)
+    · exact Or.inl ⟨c, hc, p, hp, rfl⟩
+    · unfold World.withNew at ho
+      simp only [List.mem_append, List.mem_singleton] at ho
+      rcases ho with ho | ho
+      · exact Or.inr ⟨o, ho, p, hp, rfl⟩
+      · subst ho
+        simp at hp
+  have hheap : (w.withNew k).ctx.heap = w.ctx.heap := rfl
+  have halloc : (w.withNew k).ctx.alloc = w.ctx.alloc + 1 := rfl
+  refine ⟨⟨Nat.le_succ_of_le g.wf.base, fun x ys h => ?_⟩, g.three, fun t ht => ?_, fun t ht hk => ?_,
+    fun j o ho n v hv => ?_, fun j o ho => ?_, fun a b x hab ha hm hb => ?_, fun a x ha hm t ht hk => ?_⟩
+  · obtain ⟨a1, a2, a3⟩ := g.wf.heap x ys h
+    exact ⟨a1, Nat.lt_succ_of_lt a2, fun y hy => Nat.lt_succ_of_lt (a3 y hy)⟩
+  · have gc := g.cores t (hcores t ht)
+    exact ⟨gc.const, gc.copy, gc.factory, gc.validate⟩
+  · exact Nat.lt_succ_of_lt (g.templ t (hcores t ht) hk)
+  · rcases hget j o ho with h | h
+    · exact Nat.lt_succ_of_lt (g.vals j o h n v hv)
+    · subst h; simp [assocGet] at hv
+  · rcases hget j o ho with h | h
+    · exact ⟨Nat.lt_succ_of_lt (g.oids j o h).1, (g.oids j o h).2⟩
+    · subst h
+      exact ⟨Nat.lt_succ_self _, heapGet_fresh_none g.wf _ (Nat.le_refl _)⟩
+  · exact g.sepI a b x hab (hreach a x ha) hm (hreach b x hb)
+  · exact g.sepC a x (hreach a x ha) hm t (hcores t ht) hk
+
+/-- Side conditions on the operations of a history: assigned and inserted values
+are atoms, traits added at run time are copy-promising and bring no template. -/
+def OpOk (E : Env) (P : Nat) : WOp → Prop
+  | .set _ _ v => v < P
+  | .mutate _ _ x => x < P
+  | .mutateInner _ _ x => x < P
+  | .addTrait _ _ t => ¬ copyKind t ∧ ∀ c, GoodCore E P c t
+  | _ => True
+
+theorem setInst_extends {E : Env} {P : Nat} {w : World} (g : Good E P w) (i : Nat) (o o' : Inst)
+    (extra : TraitCore → Prop) (hi : w.insts[i]? = some o) (h1 : o'.oid = o.oid) (h2 : o'.dict = o.dict)
+    (h3 : ∀ p ∈ o'.itraits, w.Cores p.2.core ∨ extra p.2.core) :
+    Extends P i extra w (w.setInst i o' w.ctx) := by
+  refine ⟨rfl, fun j hj => setInst_get_other w i j _ _ hj, CGrow.refl _ g.wf, ?_⟩
+  intro o2 ho2
+  rw [setInst_get_self w i o _ _ hi] at ho2
+  injection ho2 with ho2
+  subst ho2
+  exact ⟨o, hi, h1, fun n v hv => Or.inl (h2 ▸ hv), h3⟩
+
+/-- **The invariant is preserved by every operation.** -/
+theorem step_good {E : Env} {P : Nat} {w : World} (g : Good E P w) (op : WOp) (hop : OpOk E P op) :
+    Good E P (World.step E w op).2 := by
+  have hnone : ∀ t : TraitCore, False → ¬ copyKind t ∧ ∀ c, GoodCore E P c t := fun _ h => h.elim
+  have hget : ∀ i n, Good E P (w.onAttr i n (fun t s => Attr.step E t s .get)).2 := fun i n =>
+    (onAttr_extends g i n _ (fun t s h gc => step_ogrow t s .get h gc (Or.inl rfl))).good g hnone
+  cases op with
+  | new k =>
+    simp only [World.step]
+    split
+    · exact new_good g k
+    · exact g
+  | get i n => exact hget i n
+  | set i n v =>
+    exact (onAttr_extends g i n _ (fun t s h gc =>
+      step_ogrow t s (.set v) h gc (Or.inr (Or.inl ⟨v, rfl, hop⟩)))).good g hnone
+  | regDyn i n k =>
+    exact (onAttr_extends g i n _ (fun t s h gc =>
+      step_ogrow t s (.regDyn k false) h gc (Or.inr (Or.inr (Or.inl ⟨k, false, rfl⟩))))).good g hnone
+  | regObs i n k =>
+    exact (onAttr_extends g i n _ (fun t s h gc =>
+      step_ogrow t s (.regObs k) h gc (Or.inr (Or.inr (Or.inr ⟨k, rfl⟩))))).good g hnone
+  | regAny i k =>
+    simp only [World.step]
+    cases hi : w.insts[i]? with
+    | none => exact g
+    | some o =>
+      simp only []
+      have e := setInst_extends g i o
+        { o with on := (({ on := o.on } : OSt).regAny k false).on } (fun _ => False) hi rfl rfl
+        (fun p hp => Or.inl (Or.inr ⟨o, List.mem_of_getElem? hi, p, hp, rfl⟩))
+      exact e.good g hnone
+  | addTrait i n t =>
+    simp only [World.step, World.addTrait]
+    cases hi : w.insts[i]? with
+    | none => exact g
+    | some o =>
+      simp only []
+      have e := setInst_extends g i o
+        { o with itraits := assocSet o.itraits n { core := t, notifiers := match w.traitOf o n with
+            | some td => td.notifiers.map (fun l => l)
+            | none => none } } (fun c => c = t) hi rfl rfl (by
+          intro p hp
+          rcases mem_assocSet _ _ _ _ hp with h | h
+          · exact Or.inl (Or.inr ⟨o, List.mem_of_getElem? hi, p, h, rfl⟩)
+          · subst h; exact Or.inr rfl)
+      exact e.good g (fun c (hc : c = t) => by rw [hc]; exact hop)
+  | mutate i n x =>
+    have g1 := hget i n
+    have hst := onAttr_get_stored E w i n
+    simp only [World.step]
+    cases hr : w.onAttr i n (fun t s => Attr.step E t s .get) with
+    | mk r w1 =>
+      rw [hr] at g1 hst
+      simp only []
+      cases hv : r.val with
+      | none => exact g1
+      | some cid =>
+        simp only []
+        obtain ⟨o1, ho1, hd1⟩ := hst cid hv
+        have hreach : w1.ReachIdx i cid := ⟨o1, ho1, n, cid, hd1, Or.inl rfl⟩
+        have := mutate_good g1 i cid x hreach hop
+        cases hm : w1.ctx.mutate cid x with
+        | mk e c =>
+          rw [hm] at this
+          cases e <;> exact this
+  | mutateInner i n x =>
+    have g1 := hget i n
+    have hst := onAttr_get_stored E w i n
+    simp only [World.step]
+    cases hr : w.onAttr i n (fun t s => Attr.step E t s .get) with
+    | mk r w1 =>
+      rw [hr] at g1 hst
+      simp only []
+      cases hv : r.val with
+      | none => exact g1
+      | some cid =>
+        simp only []
+        obtain ⟨o1, ho1, hd1⟩ := hst cid hv
+        cases hin : (heapGet w1.ctx.heap cid).bind (·.head?) with
+        | none => exact g1
+        | some inner =>
+          simp only []
+          have hreach : w1.ReachIdx i inner := by
+            refine ⟨o1, ho1, n, cid, hd1, Or.inr ?_⟩
+            unfold World.kids
+            cases hg : heapGet w1.ctx.heap cid with
+            | none => simp [hg] at hin
+            | some ys =>
+              simp only [hg, Option.bind_some] at hin
+              simpa using List.mem_of_head? hin
+          have := mutate_good g1 i inner x hreach hop
+          cases hm : w1.ctx.mutate inner x with
+          | mk e c =>
+            rw [hm] at this
+            cases e <;> exact this
+
+/-- … hence by every history. -/
+theorem run_good {E : Env} {P : Nat} : ∀ (h : List WOp) (w : World), Good E P w → (∀ op ∈ h, OpOk E P op) →
+    Good E P (World.run E w h)
+  | [], _, g, _ => g
+  | op :: h, w, g, H => by
+    rw [World.run]
+    exact run_good h _ (step_good g op (H op List.mem_cons_self)) (fun o ho => H o (List.mem_cons_of_mem _ ho))
+
 end TraitsVerif.Model.Attr
